@@ -12,7 +12,13 @@ every observation (runs, handler calls, notes, escaping exceptions, clocks).
 Oracles: vt.oracle_catch (each raise is followed by the handler call with that
 exception; verdict True swallows and the run goes on, verdict False propagates out
 of start()/advance_to() and nothing runs after; periodic work stops), and a
-differential run WITHOUT the CatchScheduler for histories that never raise."""
+differential run WITHOUT the CatchScheduler for histories that never raise.
+
+Added after the coverage audit: handler verdicts None and 0 besides False (each must
+propagate: only True swallows; the model sees `false` for all three); every schedule
+call passes a fresh state object and the action checks that it is invoked with that
+very object (vt.run_impl, trace event "badstate"); `cancel` disposes the disposable
+RETURNED by CatchScheduler.schedule* (not the inner scheduler's handle)."""
 import itertools
 import json
 
@@ -29,8 +35,23 @@ U = vt.US
 CODES = (-1, 0, 1, 2)
 
 
+FALSY = (False, None, 0)      # every verdict other than True must propagate; the model sees `false`
+
+
 def g_verdict(v):
-    return "[" + "; ".join(f"({vt.gz(int(k))}, {'true' if x else 'false'})" for k, x in v.items()) + "]"
+    return "[" + "; ".join(f"({vt.gz(int(k))}, {'true' if x is True else 'false'})" for k, x in v.items()) + "]"
+
+
+def falsy_mix(v, i):
+    """replace the False verdicts of table v by False / None / 0 in rotation"""
+    out, j = {}, i
+    for k, x in v.items():
+        if x is True:
+            out[k] = True
+        else:
+            out[k] = FALSY[j % 3]
+            j += 1
+    return out
 
 
 def relabel(h):
@@ -67,19 +88,40 @@ def gen_cases(tier, rng):
     verdicts = [dict(v, **{"2": False}) for v in verdicts]       # codes -1, 0, 1 vary
     for i, h in enumerate(ex):
         vs = verdicts if tier == "thorough" else [verdicts[i % len(verdicts)], verdicts[(i * 3 + 5) % len(verdicts)]]
-        for v in vs:
-            out.append((("vts", "test", "hist")[i % 3], h, v, "exhaustive"))
+        for j, v in enumerate(vs):
+            out.append((("vts", "test", "hist")[i % 3], h, falsy_mix(v, i // 3 + j), "exhaustive"))
     # periodic actions raising at their k-th call, scheduled at top level and from inside an action
     for world in vt.WORLDS:
         for k in (0, 1, 2):
             for e in (0, 1):
-                for acc in (True, False):
+                for acc in (True, False, None, 0):
                     tab = [[[i, ["next", [], i + 1]] for i in range(k)], ["raise", [10 + k], e]]
-                    v = {"-1": False, "0": acc, "1": acc, "2": False}
+                    v = {"-1": FALSY[(k + e) % 3], "0": acc, "1": acc, "2": False}
                     out.append((world, [["do", ["periodic", U, tab, 0]], ["advto", 5 * U], ["do", ["stop"]],
                                         ["advto", 9 * U]], v, "periodic-raise"))
                     out.append((world, [["do", ["sched", ["abs", U], 0, [["periodic", 2 * U, tab, 0]]]],
                                         ["advto", 12 * U], ["do", ["stop"]], ["advby", 6 * U]], v, "periodic-raise"))
+    # cancellation through the disposables RETURNED by CatchScheduler.schedule / schedule_relative /
+    # schedule_absolute (top level) and by the recursive wrapper handed to an action (nested)
+    L = -7
+    whens = (["now"], ["rel", U], ["abs", U], ["rel", 2 * U], ["abs", 3 * U])
+    v0 = {"-1": None, "0": True, "1": 0, "2": False}
+    for wi, world in enumerate(vt.WORLDS):
+        for w1 in whens:
+            for w2 in whens[:3]:
+                for victim in (0, 1):
+                    for drive in (["start"], ["advto", 5 * U]):
+                        out.append((world, relabel([["do", ["sched", w1, L, []]], ["do", ["sched", w2, L, [["note", 1]]]],
+                                                    ["do", ["cancel", victim]], drive]), v0, "cancel-returned"))
+            for w2 in whens[1:]:
+                # action 0 schedules 1 and 2 through the scheduler handed to it and cancels 1 at once /
+                # action 2 cancels 1 when it runs (1 is due later than 2)
+                out.append((world, relabel([["do", ["sched", w1, L, [["sched", w2, L, [["note", 2]]],
+                                                                    ["sched", ["now"], L, []], ["cancel", 1]]]],
+                                            ["start"]]), v0, "cancel-returned"))
+                out.append((world, relabel([["do", ["sched", w1, L, [["sched", ["rel", 4 * U], L, [["raise", 0]]],
+                                                                    ["sched", w2, L, [["cancel", 1]]]]]],
+                                            ["start"]]), v0, "cancel-returned"))
     nr = 1500 if tier == "quick" else 20000
     for _ in range(nr):
         world = rng.choice(vt.WORLDS)
@@ -91,7 +133,7 @@ def gen_cases(tier, rng):
         h = g.history(world, rng.randrange(1, 9), bounded_only=per)
         if not per and rng.random() < 0.6:
             h.append(["start"])
-        v = {str(e): rng.random() < 0.5 for e in CODES}
+        v = {str(e): rng.choice([True, True, True, False, None, 0]) for e in CODES}
         out.append((world, h, v, "random-periodic" if per else "random"))
     return out
 
@@ -116,8 +158,11 @@ def run(chk):
         chk.cov["search"] = "theorem or build broke: scope enlarged to thorough"
     cases = gen_cases(tier, chk.rng)
     gal, failures, nontrivial = [], [], set()
-    hist = {"world": {}, "origin": {}, "handler_calls": 0, "accepted": 0, "rejected": 0, "nested_raise": 0,
-            "periodic_raise": 0, "no_raise_differential": 0}
+    hist = {"world": {}, "origin": {}, "handler_calls": 0, "accepted": 0, "rejected": 0,
+            "rejected_by_verdict": {"False": 0, "None": 0, "0": 0}, "nested_raise": 0,
+            "periodic_raise": 0, "no_raise_differential": 0,
+            "actions_invoked_with_state_checked": 0, "cancel_via_returned_disposable": 0,
+            "cancel_via_returned_disposable_of_pending_action": 0, "cancel_via_hook (items of periodic work)": 0}
     for (world, h, v, origin) in cases:
         obs, trace = vt.run_impl(world, 0, h, catch=v, timeout=10.0)
         chk.cov["evaluations"] += 1
@@ -127,6 +172,22 @@ def run(chk):
         hist["handler_calls"] += len(hs)
         hist["accepted"] += sum(1 for e in hs if e[2])
         hist["rejected"] += sum(1 for e in hs if not e[2])
+        for e in hs:
+            if not e[2]:
+                hist["rejected_by_verdict"][e[3]] += 1
+        hist["actions_invoked_with_state_checked"] += sum(1 for e in trace if e[0] == "run")
+        pend = set()
+        for e in trace:
+            if e[0] == "sched":
+                pend.add(e[1])
+            elif e[0] == "run":
+                pend.discard(e[1])
+            elif e[0] == "cancel":
+                if e[2] == "returned":
+                    hist["cancel_via_returned_disposable"] += 1
+                    hist["cancel_via_returned_disposable_of_pending_action"] += e[1] in pend
+                else:
+                    hist["cancel_via_hook (items of periodic work)"] += 1
         hist["nested_raise"] += sum(1 for e in trace if e[0] == "raise" and e[4] > 1)
         hist["periodic_raise"] += sum(1 for e in trace if e[0] == "raise" and e[3] is not None)
         if hs:
@@ -158,7 +219,9 @@ def run(chk):
         chk.violation(f"{sig}|{world}", {"world": world, "history": h, "handler_verdicts": v, "observed": obs,
                                         "what_failed": detail,
                                         "expected": "every exception raised by a scheduled action reaches the handler; "
-                                                    "True swallows (periodic work stops), False propagates; "
+                                                    "True swallows (periodic work stops), anything else (False, None, "
+                                                    "0) propagates; an action receives the state it was scheduled "
+                                                    "with; disposing the returned disposable cancels; "
                                                     "non-raising actions behave as on the wrapped scheduler"},
                       size=size)
     bad, logs = lib.correspondence("C42", "corr", IMPORTS, CASE_TY, "model", "(list_eqb oev_eqb)", gal,
@@ -179,7 +242,10 @@ def run(chk):
                        "(raising at depth 2 and 3)} followed by a later action and start(), with 2 (thorough: all 8) "
                        "handler verdict tables, rotating over the three inner schedulers; plus random histories "
                        "(depth <= 3, raise probability 0/0.1/0.2 per command, cancel/stop/sleep, 35 % with periodic "
-                       "actions that count, cycle, raise or dispose themselves, random verdicts).  non-trivial = "
+                       "actions that count, cycle, raise or dispose themselves, random verdicts).  Rejecting "
+                       "verdicts are False, None and 0 in rotation / at random (never a truthy non-True value); every "
+                       "schedule call carries a fresh state object whose identity the action checks; cancel disposes "
+                       "the disposable returned by CatchScheduler.schedule*.  non-trivial = "
                        "distinct (world, history, verdicts) in which the handler was called at least once")
     chk.cov["input_distribution"] = hist
     chk.add_samples([{"world": c[0], "history": c[1], "verdicts": c[2]} for c in cases[::max(1, len(cases) // 6)]])
@@ -187,9 +253,13 @@ def run(chk):
         trusted_extra=["Core/CatchSched.v + Core/VTime.v hand-written models (validated by this run's correspondence); "
                        "the _get_recursive_wrapper cache is not modelled (all clones share the handler)",
                        "harness/vt.py drives the real CatchScheduler; stop/sleep/advance/clock reads go to the inner "
-                       "scheduler (CatchScheduler has no such methods)"],
+                       "scheduler (CatchScheduler has no such methods)",
+                       "state forwarding (identity of a fresh object per schedule call) and cancellation through the "
+                       "returned disposables are judged by the oracles only (no counterpart in the model); the model "
+                       "sees every verdict other than True as false"],
         assumptions=["the inner scheduler is a virtual-time scheduler (single thread)",
-                     "the handler itself does not raise; exceptions are Exception subclasses"])
+                     "the handler itself does not raise; exceptions are Exception subclasses",
+                     "handler verdicts are True, False, None or 0 (no truthy value other than True)"])
 
 
 def replay(chk, path):
@@ -199,9 +269,20 @@ def replay(chk, path):
         return 1
     obs, trace = vt.run_impl(d["world"], 0, d["history"], catch=d["handler_verdicts"])
     bad = vt.oracle_catch(trace)
+    bad += [b for b in vt.oracle_vt(d["world"], trace, check_exact=False)
+            if b[0] != "advance_to-target-equals-clock"]
+    if any(e[0] == "hang" for e in trace):
+        bad.append(("hang", "no return within the watchdog"))
+    if not raises_somewhere(d["history"]):
+        obs2, _ = vt.run_impl(d["world"], 0, d["history"], catch=None)
+        if obs2 != obs:
+            bad.append(("non-raising-history-differs-from-wrapped-scheduler",
+                        f"with CatchScheduler {obs[:12]} ... directly {obs2[:12]}"))
     print("history", json.dumps(d["history"]))
     print("verdicts", d["handler_verdicts"])
     print("observed", obs)
     for sig, detail in bad:
         print("FAILS", sig, detail)
+    if bad:
+        print(f"VIOLATION property=C42 replay={path}")
     return 1 if bad else 0
